@@ -122,4 +122,65 @@ example :
     let s := run false (init [[[1, 2, 3]], [[9]]]) [0, 1, 0, 1, 0, 1, 0]
     s.done = [[1, 2, 3]] ∧ visible s = [9, 2, 3] := by decide
 
+/-! ## 3. No deadlock inside `writeMessage` -/
+
+/-- **C17 (c).**  In every reachable state of the locked program: the holder of
+`wmu` is enabled (it never waits for anything inside the critical section);
+when `wmu` is free every thread that still has a packet is enabled; hence as
+long as any thread has a packet left, some thread can move. -/
+theorem C17_progress (todos : List (List (List UInt8))) (sched : List Nat) :
+    let s := run true (init todos) sched
+    (∀ t, s.holder = some t → (step true s t).isSome = true) ∧
+    (s.holder = none → ∀ t th, s.ths[t]? = some th → th.todo ≠ [] → (step true s t).isSome = true) ∧
+    ((∃ th ∈ s.ths, th.todo ≠ []) → ∃ t, (step true s t).isSome = true) := by
+  intro s
+  obtain ⟨log, h⟩ := inv_reachable todos sched
+  refine ⟨fun t ht => holder_enabled h ht, fun hn t th hth hw => free_enabled h hn hth hw, ?_⟩
+  rintro ⟨th, hm, hw⟩
+  cases hh : s.holder with
+  | some t => exact ⟨t, holder_enabled h hh⟩
+  | none =>
+    obtain ⟨t, ht, rfl⟩ := List.getElem_of_mem hm
+    exact ⟨t, free_enabled h hh (List.getElem?_eq_getElem ht) hw⟩
+
+/-- A state in which no thread can move has delivered everything: every
+writer's list, whole and in order, is in the stream. -/
+theorem C17_quiescent_delivered (todos : List (List (List UInt8))) (sched : List Nat) :
+    let s := run true (init todos) sched
+    (∀ t, step true s t = none) →
+    (∀ th ∈ s.ths, th.todo = []) ∧ visible s = s.done.flatten ∧
+    ∃ log : List (Nat × List UInt8),
+      log.map (·.2) = s.done ∧ (∀ e ∈ log, e.1 < todos.length) ∧
+      ∀ t l, todos[t]? = some l → fromThread log t = l := by
+  intro s hq
+  have hall : ∀ th ∈ s.ths, th.todo = [] := by
+    intro th hm
+    cases htd : th.todo with
+    | nil => rfl
+    | cons m rest =>
+      obtain ⟨t, ht⟩ := (C17_progress todos sched).2.2 ⟨th, hm, by rw [htd]; exact List.cons_ne_nil _ _⟩
+      have ht' : (step true s t).isSome = true := ht
+      rw [hq t] at ht'; cases ht'
+  exact ⟨hall, C17_packets_complete todos sched hall⟩
+
+/-- Termination measure: `work s` = number of own steps the threads still have
+to take (four per packet).  Every enabled step lowers it by exactly one, it
+starts at four times the number of packets, and it is zero only when every list
+is empty — so every schedule that keeps choosing enabled threads (one exists
+by `C17_progress`) delivers everything in exactly `4 · #packets` steps. -/
+theorem C17_progress_measure (todos : List (List (List UInt8))) (sched : List Nat) :
+    let s := run true (init todos) sched
+    (∀ t s', step true s t = some s' → work s' + 1 = work s) ∧
+    work (init todos) = 4 * (todos.map List.length).sum ∧
+    (work s = 0 → ∀ th ∈ s.ths, th.todo = []) := by
+  intro s
+  obtain ⟨log, h⟩ := inv_reachable todos sched
+  exact ⟨fun t s' hs => work_step h hs, work_init todos, work_zero h⟩
+
+/-- blocked entry is the only disabled choice while work remains: here thread 1
+is refused while thread 0 holds `wmu`, thread 0 is enabled -/
+example :
+    let s := run true (init [[[1]], [[2]]]) [0, 0]
+    s.holder = some 0 ∧ step true s 1 = none ∧ (step true s 0).isSome = true ∧ work s = 6 := by decide
+
 end Mqtt.Properties.C17
